@@ -1,5 +1,5 @@
 """C15 - card, call, contract, seat and vulnerability notations are exact inverses (complete domains)."""
-from vf.common.core import Stats, Violation, check, guard, orders
+from vf.common.core import Stats, Violation, check, guard, orders, fresh
 from vf.common import be
 from vf.model import auction as A, play as P
 
@@ -46,7 +46,7 @@ def _cards(stats, only=None):
         check(int(be.CARD[i]) == i, 'int(card) != index', case, {'got': int(be.CARD[i])})
         s = str(be.CARD[i])
         check(s == P.card_name(i), 'str(card) != suit letter + rank letter', case, {'got': s})
-        back = guard('str_to_card raises', case, Card.str_to_card, s)
+        back = guard('str_to_card raises', case, Card.str_to_card, fresh(s))
         check(back == be.CARD[i], 'str_to_card(str(card)) != card', case, {'got': repr(back)})
         check(int(back) == i, 'str and int notations disagree', case, {'got': int(back)})
         ints.append((i, int(c)))
@@ -62,7 +62,7 @@ def _cards(stats, only=None):
             case = {'rank': r}
             t = guard('rank_int_to_str raises', case, Card.rank_int_to_str, r)
             check(t == RANK_TXT[r], 'rank letter', case, {'got': t})
-            check(guard('rank_str_to_int raises', case, Card.rank_str_to_int, t) == r, 'rank_str_to_int(rank_int_to_str(r)) != r', case)
+            check(guard('rank_str_to_int raises', case, Card.rank_str_to_int, fresh(t)) == r, 'rank_str_to_int(rank_int_to_str(r)) != r', case)
             rs.append((r, t))
             stats.evaluated(2)
             stats.nt(['rank', r, 0]); stats.nt(['rank', r, 1])
@@ -97,7 +97,7 @@ def _calls(stats):
         check(b.idx == i, 'idx != index', case, {'got': b.idx})
         s = str(b)
         check(s == A.call_name(i), 'str(call) != level+denomination text', case, {'got': s})
-        check(guard('str_to_bid raises', case, Bid.str_to_bid, s) is b, 'str_to_bid(str(call)) != call', case)
+        check(guard('str_to_bid raises', case, Bid.str_to_bid, fresh(s)) is b, 'str_to_bid(str(call)) != call', case)
         if i < 35:
             check(b.level == i // 5 + 1 and b.suit is be.SUIT[i % 5], 'level/suit of a bid', case,
                   {'level': b.level, 'suit': repr(b.suit)})
@@ -126,7 +126,7 @@ def _seats(stats):
         case = {'seat': A.SEATS[i]}
         check(str(p) == A.SEATS[i] and Player[str(p)] is p, 'seat short name', case, {'got': str(p)})
         check(p.formal_name == be.FORMAL[i], 'formal name', case, {'got': p.formal_name})
-        check(guard('convert_formal_name raises', case, Player.convert_formal_name, p.formal_name) is p,
+        check(guard('convert_formal_name raises', case, Player.convert_formal_name, fresh(p.formal_name)) is p,
               'convert_formal_name(formal_name) != seat', case)
         check(p.left is be.SEAT[(i + 1) % 4] and p.next_player is be.SEAT[(i + 1) % 4], 'left/next is not clockwise', case)
         check(p.right is be.SEAT[(i + 3) % 4], 'right is not anticlockwise', case)
@@ -156,8 +156,8 @@ def _vuls(stats):
         case = {'vul': vn}
         check(str(v) == vn, 'str(vul)', case, {'got': str(v)})
         check(v.pbn_format() == pbn[vn], 'pbn_format(vul)', case, {'got': v.pbn_format()})
-        check(guard('str_to_vul raises', case, Vul.str_to_vul, str(v)) is v, 'str_to_vul(str(v)) != v', case)
-        check(guard('str_to_vul raises', case, Vul.str_to_vul, v.pbn_format()) is v, 'str_to_vul(pbn_format(v)) != v', case)
+        check(guard('str_to_vul raises', case, Vul.str_to_vul, fresh(str(v))) is v, 'str_to_vul(str(v)) != v', case)
+        check(guard('str_to_vul raises', case, Vul.str_to_vul, fresh(v.pbn_format())) is v, 'str_to_vul(pbn_format(v)) != v', case)
         a.append((vn, str(v))); b.append((vn, v.pbn_format()))
         stats.evaluated(4)
         for k in range(4):
@@ -171,7 +171,7 @@ def _vuls(stats):
     _distinct(b, 'two vulnerabilities share a PBN text', 'vul')
     for s, vn in spell.items():
         case = {'spelling': s}
-        check(guard('str_to_vul raises', case, Vul.str_to_vul, s) is be.VUL[vn], 'accepted spelling maps to wrong vulnerability', case)
+        check(guard('str_to_vul raises', case, Vul.str_to_vul, fresh(s)) is be.VUL[vn], 'accepted spelling maps to wrong vulnerability', case)
         stats.evaluated(); stats.nt(['spelling', s], case)
     stats.cls('vulnerability identities', 16 + 16 + 7)
 
@@ -183,7 +183,7 @@ def _contract(bid, dbl, enc, vn, decl, stats=None):
     c = Contract(final_bid=be.BID[bid], x=x, xx=dbl == 2, vul=be.VUL[vn], declarer=be.SEAT[decl])
     text = str(c)
     check(text == A.call_name(bid) + ('', 'X', 'XX')[dbl], 'contract text', case, {'got': text})
-    back = guard('str_to_contract raises', case, Contract.str_to_contract, text, be.VUL[vn], be.SEAT[decl])
+    back = guard('str_to_contract raises', case, Contract.str_to_contract, fresh(text), be.VUL[vn], be.SEAT[decl])
     ok = (back.level == bid // 5 + 1 and back.trump is be.SUIT[bid % 5] and back.vul is be.VUL[vn]
           and back.declarer is be.SEAT[decl] and be.dbl_status(back) == dbl and not back.is_passed_out())
     check(ok, 'contract text does not parse back to the same contract', case, {'got': repr(back)})
@@ -216,7 +216,7 @@ def _contracts(stats):
             case = {'passed_out_form': str(form), 'vul': vn}
             c = Contract(final_bid=None if form is None else Bid['Pass'], vul=be.VUL[vn])
             check(c.is_passed_out() and c.level is None and c.trump is None, 'passed-out contract', case)
-            back = guard('str_to_contract raises', case, Contract.str_to_contract, str(c), be.VUL[vn], None)
+            back = guard('str_to_contract raises', case, Contract.str_to_contract, fresh(str(c)), be.VUL[vn], None)
             check(back.is_passed_out() and back.vul is be.VUL[vn] and back.declarer is None and be.dbl_status(back) == 0,
                   'passed-out text does not parse back', case, {'got': repr(back)})
             check(str(c) not in texts, 'passed-out text collides with a contract', case)
